@@ -84,6 +84,9 @@ class Check:
         t = time.time()
         self.shim = build.build_shim(self.bdir)
         self.env = build.sanitizer_env()
+        self.env["VERIF_BUILD_DIR"] = self.bdir
+        if getattr(self.prop, "NEEDS_TSAN", False):
+            self.env["VERIF_TSAN_DRIVER"] = build.build_tsan(self.bdir)
         self.fuzz_exes = {}
         for plan in self.prop.fuzz_plan(self.tier):
             tgt = plan["target"]
